@@ -257,9 +257,9 @@ static long purge_calls_since(long mark) {
   for (long k = mark; k < vf_os.ncalls && k < VF_MAX_CALLS; k++) { const vf_call_t* c = &vf_os.calls[k]; if (c->kind == VF_C_MADVISE || (c->kind == VF_C_MPROTECT && c->arg == PROT_NONE)) n++; }
   return n;
 }
-enum { U_PAGE = 0, U_SEGMENT = 1, U_ALL = 2 };
+enum { U_PAGE = 0, U_SEGMENT = 1, U_ALL = 2, U_MULTI = 3, NUNUSED = 4 };
 enum { A_FREE_OTHER_PAGE = 0, A_ALLOC_PAGE = 1, A_HUGE_ALLOC_FREE = 2, A_COLLECT = 3, A_FASTPATH = 4, NACT = 5 };
-static const char* u_names[] = { "page-in-live-segment", "whole-segment", "everything" };
+static const char* u_names[] = { "page-in-live-segment", "whole-segment", "everything", "several-pages-of-one-segment" };
 static const char* a_names[] = { "free-other-page", "alloc-page-in-segment", "alloc+free-17MiB", "collect(false)", "small-fast-path-only" };
 static void purge_case(long k) {
   int U = (int)(k / NACT), A = (int)(k % NACT);
@@ -275,12 +275,24 @@ static void purge_case(long k) {
   memset(pa, 1, MiB); memset(pb, 2, MiB); memset(pc, 3, MiB);
   if (_mi_ptr_segment(pa) != _mi_ptr_segment(pb) || _mi_ptr_segment(pb) != _mi_ptr_segment(pc)) { vf_sh->infra_error = 1; fprintf(stderr, "set-up: pages not in one segment\n"); return; }
   uintptr_t lo, hi; long expiry;
+  /* U_MULTI: nine more 1 MiB pages in the same segment; four non-adjacent ones (spread over several 64-slice fields of the
+     segment's purge mask) become unused together */
+  uint8_t* more[9]; uintptr_t mlo[4], mhi[4]; int nm = 0;
+  if (U == U_MULTI) {
+    for (int i = 0; i < 9; i++) { more[i] = (uint8_t*)mi_malloc(1 * MiB); if (!more[i]) { VIOL("null-result", "set-up"); return; } memset(more[i], 5 + i, MiB);
+      if (_mi_ptr_segment(more[i]) != _mi_ptr_segment(pa)) { vf_sh->infra_error = 1; fprintf(stderr, "set-up: pages not in one segment\n"); return; } }
+  }
   if (U == U_SEGMENT) { hu = (uint8_t*)mi_malloc(17 * MiB); if (!hu) { VIOL("null-result", "set-up"); return; } memset(hu, 4, 17 * MiB); }
   g_mark = vf_os.ncalls;
   int64_t T0 = vf_os.clock_ms;
   /* the event: something becomes unused at T0 */
   if (U == U_PAGE)         { lo = (uintptr_t)pb; hi = lo + 1 * MiB; mi_free(pb); pb = NULL; }
   else if (U == U_SEGMENT) { lo = (uintptr_t)hu; hi = lo + 17 * MiB; mi_free(hu); hu = NULL; }
+  else if (U == U_MULTI) {
+    uint8_t* f[4] = { pb, more[0], more[3], more[6] };     /* pages #1, #3, #6, #9 of the segment */
+    for (int i = 0; i < 4; i++) { mlo[i] = (uintptr_t)f[i]; mhi[i] = mlo[i] + 1 * MiB; mi_free(f[i]); } nm = 4;
+    pb = NULL; lo = mlo[0]; hi = mhi[0];
+  }
   else { lo = (uintptr_t)pa; hi = (uintptr_t)pc + 1 * MiB; mi_free(pa); mi_free(pb); mi_free(pc); pa = pb = pc = NULL; for (int i = 0; i < 8; i++) { mi_free(small[i]); small[i] = NULL; } }
   VF_INC(transitions); VF_INC(checks);
   size_t span = hi - lo;
@@ -293,6 +305,7 @@ static void purge_case(long k) {
     VF_INC(nontrivial); return;
   }
   if (d == 0) {
+    for (int i = 1; i < nm; i++) { size_t g = returned_bytes_in(mlo[i], mhi[i], g_mark, 1); if (g < need) { VIOL("not-purged-immediately", "purge_delay=0: only %zu of %zu bytes of unused page %d were returned at once", g, span, i + 1); return; } }
     size_t got = returned_bytes_in(lo, hi, g_mark, 1);
     /* with delay 0 the memory is returned as soon as it becomes unused. For "everything" the small pages may be retired
        (kept for a few cycles) so only the large-page range is examined */
@@ -317,14 +330,20 @@ static void purge_case(long k) {
   switch (A) {
     /* page in a live segment: the segment's purge point is reached when another page of it is freed. (Allocating in
        the segment re-arms the delay by design -- "we assume more allocations are coming soon" -- so it is a control.) */
-    case A_FREE_OTHER_PAGE: if (U == U_PAGE) { mi_free(pc); pc = NULL; expect = 1; } else { void* t = mi_malloc(64); mi_free(t); expect = 0; } break;
+    case A_FREE_OTHER_PAGE: if (U == U_PAGE || U == U_MULTI) { mi_free(pc); pc = NULL; expect = 1; } else { void* t = mi_malloc(64); mi_free(t); expect = 0; } break;
     case A_ALLOC_PAGE:      { void* t = mi_malloc(300 * KiB); (void)t; expect = 0; break; }
     /* whole segments: the arena's purge point is reached by any arena free and by a non-forced collect */
-    case A_HUGE_ALLOC_FREE: { void* t = mi_malloc(40 * MiB); mi_free(t); expect = (U != U_PAGE); break; }
-    case A_COLLECT:         mi_collect(false); expect = (U != U_PAGE); break;
+    case A_HUGE_ALLOC_FREE: { void* t = mi_malloc(40 * MiB); mi_free(t); expect = (U == U_SEGMENT || U == U_ALL); break; }
+    case A_COLLECT:         mi_collect(false); expect = (U == U_SEGMENT || U == U_ALL); break;
     case A_FASTPATH:        { void* t = mi_malloc(64); mi_free(t); expect = 0; break; }
   }
   size_t got = returned_bytes_in(lo, hi, g_mark, 1);   /* cumulative since the event; an immediate munmap counts */
+  if (expect && U == U_MULTI) {
+    for (int i = 0; i < nm; i++) {
+      size_t g = returned_bytes_in(mlo[i], mhi[i], g_mark, 1);
+      if (g < need) { VIOL("not-purged-after-delay", "%ld ms after becoming unused (delay %ld ms) activity '%s' returned only %zu of %zu bytes of unused page %d of 4 (no forced collect)", (long)(vf_os.clock_ms - T0), expiry, a_names[A], g, span, i + 1); return; }
+    }
+  }
   if (expect) {
     size_t want = need;
     vf_sample("%s: returned %zu of %zu bytes after the delay", g_case_desc, got, span);
@@ -426,7 +445,7 @@ int main(int argc, char** argv) {
   long* shared_dry = (long*)mmap(NULL, sizeof(long) * NWL, PROT_READ | PROT_WRITE, MAP_SHARED | MAP_ANONYMOUS, -1, 0);
   g_dry_kinds = (uint8_t (*)[512])mmap(NULL, 512 * NWL, PROT_READ | PROT_WRITE, MAP_SHARED | MAP_ANONYMOUS, -1, 0);
   if (strcmp(g_mode, "footprint") == 0) { ncases = NWL; fn = footprint_case; }
-  else if (strcmp(g_mode, "purge") == 0) { ncases = 3 * NACT; fn = purge_case; }
+  else if (strcmp(g_mode, "purge") == 0) { ncases = NUNUSED * NACT; fn = purge_case; }
   else if (strcmp(g_mode, "fault") == 0) {
     for (int wi = 0; wi < NWLF; wi++) {
       pid_t pid = fork();
